@@ -430,3 +430,460 @@ Lemma confined_empty_app_key_refuted :
 Proof.
   exists (ODict false [(KStr [120], Leaf 1)]), [[]; [120]]. split; [|split]; vm_compute; auto.
 Qed.
+
+(* ================================================================== 8. distinct objects, distinct files *)
+(* p' is p followed by "_" and offset-suffix characters: the shape of a chunk / shard location of p *)
+Definition no_suffix_clash (p p' : pystr) : Prop := forall t, suffix_chars t -> p' <> p ++ 95 :: t.
+
+Definition same_object (a b : litem) : Prop :=
+  item_prefix a = item_prefix b /\ li_path a = li_path b /\ li_offs a = li_offs b.
+
+Lemma literal_not_number : forall z,
+  str_of_Z z <> s_replicated /\ str_of_Z z <> s_sharded /\ str_of_Z z <> s_replicated_sharded /\ str_of_Z z <> s_batched.
+Proof.
+  intro z. repeat split; intro E.
+  - assert (H : In 114 (str_of_Z z)) by (rewrite E; cbn; auto). apply str_of_Z_chars in H. unfold is_digit in H. lia.
+  - assert (H : In 115 (str_of_Z z)) by (rewrite E; cbn; auto). apply str_of_Z_chars in H. unfold is_digit in H. lia.
+  - assert (H : In 114 (str_of_Z z)) by (rewrite E; cbn; auto). apply str_of_Z_chars in H. unfold is_digit in H. lia.
+  - assert (H : In 98 (str_of_Z z)) by (rewrite E; cbn; auto). apply str_of_Z_chars in H. unfold is_digit in H. lia.
+Qed.
+
+(* the prefix determines the storage class, and the rank for rank-private objects *)
+Lemma prefix_of_inj : forall sh rp r sh' rp' r', prefix_of sh rp r = prefix_of sh' rp' r' ->
+  sh = sh' /\ rp = rp' /\ (sh = false -> rp = false -> r = r').
+Proof.
+  intros sh rp r sh' rp' r' E. destruct (literal_not_number r) as (A1 & A2 & A3 & _).
+  destruct (literal_not_number r') as (B1 & B2 & B3 & _). unfold prefix_of in E.
+  destruct sh, rp, sh', rp'; try discriminate E; try (repeat split; intros; congruence);
+    try (exfalso; first [apply A1; exact E | apply A2; exact E | apply A3; exact E
+                        | apply B1; symmetry; exact E | apply B2; symmetry; exact E | apply B3; symmetry; exact E]).
+  repeat split. intros _ _. apply str_of_Z_inj. exact E.
+Qed.
+
+Lemma prefix_not_batched : forall sh rp r, prefix_of sh rp r <> s_batched.
+Proof.
+  intros sh rp r. destruct (literal_not_number r) as (_ & _ & _ & A). unfold prefix_of. destruct sh, rp; try discriminate. exact A.
+Qed.
+
+Lemma item_suffix_shape : forall a, item_suffix a = [] \/ exists t, item_suffix a = 95 :: t /\ suffix_chars t.
+Proof.
+  intro a. unfold item_suffix. destruct (li_offs a) as [o|]; [right; apply offsets_suffix_shape | left; reflexivity].
+Qed.
+
+Lemma item_suffix_inj : forall a b, item_suffix a = item_suffix b -> li_offs a = li_offs b.
+Proof.
+  intros a b. unfold item_suffix. destruct (li_offs a) as [o1|], (li_offs b) as [o2|]; intro E.
+  - f_equal. apply offsets_suffix_inj. exact E.
+  - discriminate.
+  - discriminate.
+  - reflexivity.
+Qed.
+
+(* the location string, spelled out *)
+Lemma location_string : forall a, wf_path (li_path a) -> relative (li_path a) ->
+  location_of a = item_prefix a ++ 47 :: join (li_path a) ++ item_suffix a.
+Proof.
+  intros a [Hq F] Hrel. unfold location_of, item_suffix, item_storage_path, storage_path, chunk_location, item_prefix.
+  assert (Hs : slash_free (hd [] (li_path a))).
+  { destruct (li_path a) as [|c r]; [contradiction Hq; reflexivity|]. inversion F as [|? ? [Hc _] _]. exact Hc. }
+  rewrite (os_join_plain _ _ (prefix_plain (li_sharded a) (li_replicated a) (li_rank a)) (starts_slash_join _ Hq Hrel Hs)).
+  destruct (li_offs a); [rewrite <- app_assoc; reflexivity | rewrite app_nil_r; reflexivity].
+Qed.
+
+(* string level: equal location strings name the same object, unless one path is the other plus an offsets suffix *)
+Lemma location_string_injective : forall a b,
+  wf_path (li_path a) -> wf_path (li_path b) -> relative (li_path a) -> relative (li_path b) ->
+  no_suffix_clash (join (li_path a)) (join (li_path b)) -> no_suffix_clash (join (li_path b)) (join (li_path a)) ->
+  location_of a = location_of b -> same_object a b.
+Proof.
+  intros a b Wa Wb Ra Rb Nab Nba E. rewrite (location_string a Wa Ra), (location_string b Wb Rb) in E.
+  apply sep_split_inj in E; [|apply prefix_plain|apply prefix_plain]. destruct E as [Ep E].
+  assert (Hj : join (li_path a) = join (li_path b) /\ item_suffix a = item_suffix b).
+  { apply app_eq_app in E. destruct E as [l [[E1 E2]|[E1 E2]]].
+    - destruct l as [|c l].
+      + rewrite app_nil_r in E1. cbn [app] in E2. split; [exact E1 | symmetry; exact E2].
+      + exfalso. destruct (item_suffix_shape b) as [Hb|[t [Hb Ft]]]; rewrite Hb in E2; [discriminate|].
+        inversion E2; subst c. apply (Nba l); [|exact E1]. subst t. exact (suffix_chars_app_l _ _ Ft).
+    - destruct l as [|c l].
+      + rewrite app_nil_r in E1. cbn [app] in E2. split; [symmetry; exact E1 | exact E2].
+      + exfalso. destruct (item_suffix_shape a) as [Ha|[t [Ha Ft]]]; rewrite Ha in E2; [discriminate|].
+        inversion E2; subst c. apply (Nab l); [|exact E1]. subst t. exact (suffix_chars_app_l _ _ Ft). }
+  destruct Hj as [Hj Hs]. split; [exact Ep|]. split; [|exact (item_suffix_inj a b Hs)].
+  destruct Wa as [Ha Fa], Wb as [Hb Fb].
+  rewrite <- (split_join (li_path a) Ha), <- (split_join (li_path b) Hb), Hj; [reflexivity| |].
+  - apply Forall_forall. intros c Hc. rewrite Forall_forall in Fb. exact (proj1 (Fb c Hc)).
+  - apply Forall_forall. intros c Hc. rewrite Forall_forall in Fa. exact (proj1 (Fa c Hc)).
+Qed.
+
+(* file level: what the file system makes of the two locations is the same file only for the same object *)
+Theorem location_injective : forall a b,
+  wf_path (li_path a) -> wf_path (li_path b) -> relative (li_path a) -> relative (li_path b) ->
+  no_empty_component (li_path a) -> no_empty_component (li_path b) ->
+  no_suffix_clash (join (li_path a)) (join (li_path b)) -> no_suffix_clash (join (li_path b)) (join (li_path a)) ->
+  resolve_s (location_of a) = resolve_s (location_of b) -> same_object a b.
+Proof.
+  intros a b Wa Wb Ra Rb Ea Eb Nab Nba E.
+  rewrite (proj2 (location_confined a Wa Ra) Ea), (proj2 (location_confined b Wb Rb) Eb) in E. inversion E as [E'].
+  apply (location_string_injective a b Wa Wb Ra Rb Nab Nba).
+  destruct (location_is_join a Wa Ra) as [Ja _], (location_is_join b Wb Rb) as [Jb _].
+  rewrite Ja, Jb. rewrite <- (item_components_split a Wa Ra), <- (item_components_split b Wb Rb), E'. reflexivity.
+Qed.
+
+(* without ".." the walk never pops what is already on the stack *)
+Lemma resolve_from_keeps_stack : forall cs st l, Forall okc cs -> resolve_from st cs = Some l -> exists r, l = rev st ++ r.
+Proof.
+  induction cs as [|c r IH]; intros st l F H; cbn [resolve_from] in H.
+  - inversion H. exists []. rewrite app_nil_r. reflexivity.
+  - inversion F as [|? ? Hc Hr]; subst. destruct (is_nil c || is_dot c); [exact (IH st l Hr H)|].
+    rewrite (okc_dotdot c Hc) in H. destruct (IH (c :: st) l Hr H) as [r' E]. exists (c :: r').
+    rewrite E. cbn [rev]. rewrite <- app_assoc. reflexivity.
+Qed.
+
+(* a slab never shares a file with an object's own location *)
+Lemma slab_vs_item : forall u a, plain u -> wf_path (li_path a) -> relative (li_path a) ->
+  resolve_s (slab_location u) <> resolve_s (location_of a).
+Proof.
+  intros u a Hu W R E. rewrite (proj2 (slab_location_resolves u Hu)) in E. unfold resolve_s in E.
+  rewrite (item_components_split a W R) in E. pose proof (item_components_okc a W) as F.
+  unfold item_components in E, F. destruct W as [Hq _].
+  destruct (li_path a) as [|c r]; [contradiction Hq; reflexivity|]. rewrite ext_last_cons2 in E, F.
+  unfold resolve in E. pose proof (prefix_plain (li_sharded a) (li_replicated a) (li_rank a)) as Hp. fold (item_prefix a) in Hp.
+  destruct (item_prefix a) as [|x p] eqn:Ep; [exact (proj1 Hp eq_refl)|].
+  cbn [resolve_from] in E. destruct (plain_flags _ Hp) as (E1 & E2 & E3). rewrite E1, E2, E3 in E. cbn [orb] in E.
+  inversion F as [|? ? _ Fr]; subst. symmetry in E. destruct (resolve_from_keeps_stack _ _ _ Fr E) as [r' E'].
+  cbn [rev app] in E'. apply (f_equal (hd [])) in E'. cbn [hd] in E'. rename E' into Eb. apply (prefix_not_batched (li_sharded a) (li_replicated a) (li_rank a)).
+  fold (item_prefix a). rewrite Ep. symmetry. exact Eb.
+Qed.
+
+Lemma slab_location_injective : forall u u', plain u -> plain u' ->
+  resolve_s (slab_location u) = resolve_s (slab_location u') -> u = u'.
+Proof.
+  intros u u' Hu Hu' E. rewrite (proj2 (slab_location_resolves u Hu)), (proj2 (slab_location_resolves u' Hu')) in E.
+  inversion E. reflexivity.
+Qed.
+
+(* ---- the two hypotheses are forced ---- *)
+Lemma suffix_clash_refuted :
+  exists a b, wf_path (li_path a) /\ wf_path (li_path b) /\ relative (li_path a) /\ relative (li_path b) /\
+              no_empty_component (li_path a) /\ no_empty_component (li_path b) /\
+              location_of a = location_of b /\ ~ same_object a b.
+Proof.
+  exists (mkLoc false false 0 [[109]; [119]] (Some [0])), (mkLoc false false 0 [[109]; [119; 95; 48]] None).
+  repeat split; try discriminate; try (repeat constructor; unfold slash_free; cbn; intuition discriminate).
+  intros (_ & E & _). discriminate E.
+Qed.
+
+Lemma empty_component_refuted :
+  exists a b, wf_path (li_path a) /\ wf_path (li_path b) /\ relative (li_path a) /\ relative (li_path b) /\
+              no_suffix_clash (join (li_path a)) (join (li_path b)) /\ no_suffix_clash (join (li_path b)) (join (li_path a)) /\
+              location_of a <> location_of b /\
+              resolve_s (location_of a) = resolve_s (location_of b) /\ ~ same_object a b.
+Proof.
+  exists (mkLoc false false 0 [[109]; []; [120]] None), (mkLoc false false 0 [[109]; [120]] None).
+  split; [|split; [|split; [|split; [|split; [|split; [|split; [|split]]]]]]].
+  - split; [discriminate|]. repeat constructor; unfold slash_free; cbn; intuition discriminate.
+  - split; [discriminate|]. repeat constructor; unfold slash_free; cbn; intuition discriminate.
+  - discriminate.
+  - discriminate.
+  - intros t _ E. cbn in E. discriminate E.
+  - intros t _ E. cbn in E. discriminate E.
+  - cbn. discriminate.
+  - vm_compute. reflexivity.
+  - intros (_ & E & _). discriminate E.
+Qed.
+
+(* ================================================================== 9. byte ranges of distinct objects never overlap *)
+Lemma FOP_app : forall {A} (R : A -> A -> Prop) l1 l2,
+  ForallOrdPairs R l1 -> ForallOrdPairs R l2 -> (forall x y, In x l1 -> In y l2 -> R x y) -> ForallOrdPairs R (l1 ++ l2).
+Proof.
+  intros A R. induction l1 as [|a l1 IH]; intros l2 H1 H2 Hx; cbn [app]; [exact H2|].
+  inversion H1 as [|? ? Fa H1']; subst. constructor.
+  - apply Forall_app. split; [exact Fa|]. apply Forall_forall. intros y Hy. apply Hx; [left; reflexivity | exact Hy].
+  - apply IH; [exact H1' | exact H2 |]. intros x y Hin Hy. apply Hx; [right; exact Hin | exact Hy].
+Qed.
+
+Lemma FOP_map : forall {A B} (f : A -> B) (R : B -> B -> Prop) l,
+  ForallOrdPairs (fun x y => R (f x) (f y)) l -> ForallOrdPairs R (map f l).
+Proof.
+  intros A B f R. induction l as [|a l IH]; intro H; cbn [map]; [constructor|].
+  inversion H as [|? ? Fa H']; subst. constructor; [|apply IH; exact H'].
+  apply Forall_forall. intros y Hy. apply in_map_iff in Hy. destruct Hy as [x [E Hx]]. subst y.
+  rewrite Forall_forall in Fa. exact (Fa x Hx).
+Qed.
+
+Lemma FOP_impl_in : forall {A} (R Q : A -> A -> Prop) l,
+  ForallOrdPairs R l -> (forall x y, In x l -> In y l -> R x y -> Q x y) -> ForallOrdPairs Q l.
+Proof.
+  intros A R Q. induction l as [|a l IH]; intros H HQ; [constructor|].
+  inversion H as [|? ? Fa H']; subst. constructor.
+  - apply Forall_forall. intros y Hy. rewrite Forall_forall in Fa. apply HQ; [left; reflexivity | right; exact Hy | exact (Fa y Hy)].
+  - apply IH; [exact H'|]. intros x y Hin Hy. apply HQ; right; assumption.
+Qed.
+
+Lemma opt_path_eqb_true : forall a b, opt_path_eqb a b = true -> a = b.
+Proof.
+  intros [x|] [y|] H; cbn in H; try discriminate; [|reflexivity]. apply path_eqb_eq in H. subst. reflexivity.
+Qed.
+
+Lemma overlaps_false_loc : forall (r1 r2 : ref), resolve_s (fst r1) <> resolve_s (fst r2) -> overlaps r1 r2 = false.
+Proof.
+  intros r1 r2 H. unfold overlaps. destruct (opt_path_eqb (resolve_s (fst r1)) (resolve_s (fst r2))) eqn:E; [|reflexivity].
+  apply opt_path_eqb_true in E. contradiction.
+Qed.
+
+Lemma overlaps_false_rng : forall l l' l1 h1 l2 h2, h1 <= l2 -> overlaps (l, Some (l1, h1)) (l', Some (l2, h2)) = false.
+Proof.
+  intros l l' l1 h1 l2 h2 H. unfold overlaps. cbn [snd ranges_meet].
+  assert (E : (Z.max l1 l2 <? Z.min h1 h2) = false) by (apply Z.ltb_ge; lia). rewrite E. apply andb_false_r.
+Qed.
+
+(* what flatten gives, plus no empty key on the way *)
+Definition good_item (a : litem) : Prop := wf_path (li_path a) /\ relative (li_path a) /\ no_empty_component (li_path a).
+(* two different saved objects whose keys do not differ by an offsets suffix *)
+Definition distinct_objects (a b : litem) : Prop :=
+  ~ same_object a b /\
+  no_suffix_clash (join (li_path a)) (join (li_path b)) /\ no_suffix_clash (join (li_path b)) (join (li_path a)).
+
+Theorem ranges_disjoint : forall T (items : list litem) (slabs : list (pystr * list member)),
+  Forall good_item items -> ForallOrdPairs distinct_objects items ->
+  NoDup (map fst slabs) -> Forall (fun s => plain (fst s) /\ good_slab T (snd s)) slabs ->
+  ForallOrdPairs (fun r1 r2 => overlaps r1 r2 = false) (layout_refs items slabs).
+Proof.
+  intros T items slabs Gi Di Nu Gs. unfold layout_refs. apply FOP_app.
+  - apply FOP_map. apply (FOP_impl_in distinct_objects); [exact Di|].
+    intros a b Ha Hb (Hn & N1 & N2). rewrite Forall_forall in Gi.
+    destruct (Gi a Ha) as (Wa & Ra & Ea). destruct (Gi b Hb) as (Wb & Rb & Eb).
+    apply overlaps_false_loc. cbn [fst]. intro E. apply Hn. exact (location_injective a b Wa Wb Ra Rb Ea Eb N1 N2 E).
+  - induction slabs as [|s rest IH]; [constructor|]. cbn [flat_map]. cbn [map] in Nu.
+    inversion Nu as [|? ? Hs Nu']; subst. inversion Gs as [|? ? [Ps Gd] Gs']; subst. apply FOP_app.
+    + unfold slab_refs. apply FOP_map. apply (FOP_impl_in (fun a b => m_hi a <= m_lo b)); [exact (good_slab_disjoint T _ Gd)|].
+      intros x y _ _ H. apply overlaps_false_rng. exact H.
+    + apply IH; assumption.
+    + intros x y Hx Hy. apply in_flat_map in Hy. destruct Hy as [s' [Hs' Hy]].
+      unfold slab_refs in Hx, Hy. apply in_map_iff in Hx. destruct Hx as [mx [Ex _]].
+      apply in_map_iff in Hy. destruct Hy as [my [Ey _]]. subst x y. apply overlaps_false_loc. cbn [fst]. intro E.
+      rewrite Forall_forall in Gs'. destruct (Gs' s' Hs') as [Ps' _].
+      apply (slab_location_injective _ _ Ps Ps') in E. apply Hs. apply in_map_iff. exists s'. split; [symmetry; exact E | exact Hs'].
+  - intros x y Hx Hy. apply in_map_iff in Hx. destruct Hx as [a [Ex Ha]]. subst x.
+    apply in_flat_map in Hy. destruct Hy as [s [Hs Hy]]. unfold slab_refs in Hy. apply in_map_iff in Hy.
+    destruct Hy as [m [Ey _]]. subst y. apply overlaps_false_loc. cbn [fst]. intro E.
+    rewrite Forall_forall in Gi, Gs. destruct (Gi a Ha) as (Wa & Ra & _). destruct (Gs s Hs) as [Ps _].
+    symmetry in E. exact (slab_vs_item (fst s) a Ps Wa Ra E).
+Qed.
+
+(* ================================================================== 10. raw size *)
+(* a buffer-protocol tensor write request: (path id, batchable, shape, element size) *)
+Definition treq := (Z * bool * list Z * Z)%type.
+Definition t_path (t : treq) : Z := fst (fst (fst t)).
+Definition t_shape (t : treq) : list Z := snd (fst t).
+Definition t_esize (t : treq) : Z := snd t.
+Definition t_bytes (t : treq) : Z := t_esize t * prodZ (t_shape t).           (* nelement() * element_size() *)
+Definition treq_wreq (t : treq) : wreq := (t_path t, snd (fst (fst t)), t_bytes t).
+
+Theorem raw_size : forall T (ts : list treq) slabs pass reloc,
+  1 <= T -> Forall (fun t => 0 <= t_esize t /\ Forall (fun s => 0 <= s) (t_shape t)) ts -> NoDup (map t_path ts) ->
+  batch_write T (map treq_wreq ts) = (slabs, pass, reloc) ->
+  forall t, In t ts ->
+    (dict_get Z.eqb (t_path t) reloc = None /\ In (treq_wreq t) pass)
+    \/ (exists k ms lo hi, dict_get Z.eqb (t_path t) reloc = Some (k, lo, hi) /\ In (k, ms) slabs /\ In (t_path t, lo, hi) ms /\
+                           hi - lo = t_esize t * prodZ (t_shape t) /\ 0 <= lo /\ hi <= slab_sz ms).
+Proof.
+  intros T ts slabs pass reloc HT Hts Hnd Hbw t Hin.
+  assert (Hsz : Forall (fun w => 0 <= w_size w) (map treq_wreq ts)).
+  { apply Forall_forall. intros w Hw. apply in_map_iff in Hw. destruct Hw as [t' [E Ht']]. subst w.
+    rewrite Forall_forall in Hts. destruct (Hts t' Ht') as [He Hs]. unfold treq_wreq, w_size, t_bytes. cbn [snd].
+    apply Z.mul_nonneg_nonneg; [exact He | apply prodZ_nonneg; exact Hs]. }
+  assert (Hnd' : NoDup (map w_path (map treq_wreq ts))).
+  { rewrite map_map. exact Hnd. }
+  assert (Hw : In (treq_wreq t) (map treq_wreq ts)) by (apply in_map; exact Hin).
+  destruct (small T (treq_wreq t)) eqn:Es.
+  - right. destruct (bw_small_request T _ slabs pass reloc HT Hsz Hnd' Hbw _ Hw Es) as (k & ms & lo & hi & H1 & H2 & H3 & H4).
+    exists k, ms, lo, hi. change (w_path (treq_wreq t)) with (t_path t) in *. repeat split; try assumption.
+    + pose proof (slab_good T _ slabs pass reloc HT Hsz Hnd' Hbw k ms H1) as (_ & Hc & _).
+      pose proof (consecutive_bounds _ _ _ Hc (m_range (t_path t, lo, hi)) (in_map m_range _ _ H2)) as Hb. cbn in Hb. lia.
+    + pose proof (slab_good T _ slabs pass reloc HT Hsz Hnd' Hbw k ms H1) as (_ & Hc & _).
+      pose proof (consecutive_bounds _ _ _ Hc (m_range (t_path t, lo, hi)) (in_map m_range _ _ H2)) as Hb. cbn in Hb. lia.
+  - left. destruct (bw_large_request T _ slabs pass reloc HT Hsz Hnd' Hbw _ Hw Es) as [H1 H2]. split; assumption.
+Qed.
+
+(* ================================================================== 11. the manifest lists every leaf exactly once *)
+Lemma manifest_path_string : forall r p, starts_slash p = false -> manifest_path r p = str_of_Z r ++ 47 :: p.
+Proof. intros r p H. unfold manifest_path. apply os_join_plain; [apply str_of_Z_plain | exact H]. Qed.
+
+Lemma manifest_path_inj : forall r r' p p', starts_slash p = false -> starts_slash p' = false ->
+  manifest_path r p = manifest_path r' p' -> r = r' /\ p = p'.
+Proof.
+  intros r r' p p' H H' E. rewrite (manifest_path_string r p H), (manifest_path_string r' p' H') in E.
+  apply sep_split_inj in E; [|apply str_of_Z_slash_free|apply str_of_Z_slash_free]. destruct E as [E1 E2].
+  split; [apply str_of_Z_inj; exact E1 | exact E2].
+Qed.
+
+Lemma in_global_from : forall L r0 x,
+  In x (global_from r0 L) <->
+  exists i m p, nth_error L i = Some m /\ In p m /\ x = manifest_path (Z.of_nat (r0 + i)) p.
+Proof.
+  induction L as [|m0 rest IH]; intros r0 x; cbn [global_from].
+  - split; [intros [] | intros (i & m & p & H & _)]. destruct i; discriminate H.
+  - rewrite in_app_iff, IH. split.
+    + intros [H | (i & m & p & H1 & H2 & H3)].
+      * apply in_map_iff in H. destruct H as [p [E Hp]]. exists 0%nat, m0, p. rewrite Nat.add_0_r. repeat split; [exact Hp | symmetry; exact E].
+      * exists (S i), m, p. repeat split; [exact H1 | exact H2 |]. rewrite H3. f_equal. f_equal. lia.
+    + intros (i & m & p & H1 & H2 & H3). destruct i as [|i].
+      * left. cbn in H1. inversion H1; subst m0. rewrite Nat.add_0_r in H3. subst x. apply in_map. exact H2.
+      * right. exists i, m, p. repeat split; [exact H1 | exact H2 |]. rewrite H3. f_equal. f_equal. lia.
+Qed.
+
+Definition relative_str (p : pystr) : Prop := starts_slash p = false.
+
+Lemma global_from_nodup : forall L r0,
+  Forall (fun m => NoDup m /\ Forall relative_str m) L -> NoDup (global_from r0 L).
+Proof.
+  induction L as [|m0 rest IH]; intros r0 F; cbn [global_from]; [constructor|].
+  inversion F as [|? ? [N0 R0] F']; subst. apply NoDup_app_intro.
+  - apply NoDup_map_inj_on; [|exact N0]. intros a b Ha Hb E. rewrite Forall_forall in R0.
+    exact (proj2 (manifest_path_inj _ _ a b (R0 a Ha) (R0 b Hb) E)).
+  - apply IH. exact F'.
+  - intros x Hx Hy. apply in_map_iff in Hx. destruct Hx as [p [E Hp]]. apply in_global_from in Hy.
+    destruct Hy as (i & m & p' & H1 & H2 & H3). subst x. rewrite Forall_forall in R0, F'.
+    apply nth_error_In in H1. destruct (F' m H1) as [_ Rm]. rewrite Forall_forall in Rm.
+    apply manifest_path_inj in H3; [|exact (R0 p Hp)|exact (Rm p' H2)]. destruct H3 as [H3 _]. lia.
+Qed.
+
+(* ---- one rank: the leaf paths of all its stateful objects are pairwise distinct strings ---- *)
+Lemma NoDup_flat_map_disjoint : forall {A B} (f : A -> list B) l,
+  (forall x, In x l -> NoDup (f x)) ->
+  ForallOrdPairs (fun x y => forall b, In b (f x) -> ~ In b (f y)) l -> NoDup (flat_map f l).
+Proof.
+  intros A B f. induction l as [|a l IH]; intros Hn Hd; cbn [flat_map]; [constructor|].
+  inversion Hd as [|? ? Fa Hd']; subst. apply NoDup_app_intro.
+  - apply Hn. left. reflexivity.
+  - apply IH; [intros x Hx; apply Hn; right; exact Hx | exact Hd'].
+  - intros b Hb Hc. apply in_flat_map in Hc. destruct Hc as [y [Hy Hby]]. rewrite Forall_forall in Fa. exact (Fa y Hy b Hb Hby).
+Qed.
+
+Lemma leaf_string_origin : forall o k s, In s (map fst (snd (flatten_s o k))) ->
+  exists q, In q (all_paths o [encode k]) /\ s = join q.
+Proof.
+  intros o k s H. unfold flatten_s in H. cbn [snd] in H. rewrite map_map in H. cbn [fst] in H.
+  apply in_map_iff in H. destruct H as [[q x] [E Hq]]. cbn [fst] in E. exists q. split; [|symmetry; exact E].
+  unfold all_paths, flatten_top in *. apply in_or_app. right. apply in_map_iff. exists (q, x). split; [reflexivity | exact Hq].
+Qed.
+
+Lemma FOP_of_NoDup_map : forall {A B} (f : A -> B) (R : A -> A -> Prop) l,
+  NoDup (map f l) -> (forall x y, f x <> f y -> R x y) -> ForallOrdPairs R l.
+Proof.
+  intros A B f R. induction l as [|a l IH]; intros N H; [constructor|]. cbn [map] in N. inversion N as [|? ? Ha N']; subst.
+  constructor; [|apply IH; assumption]. apply Forall_forall. intros y Hy. apply H. intro E. apply Ha. rewrite E. apply in_map. exact Hy.
+Qed.
+
+Theorem rank_leaf_paths_nodup : forall st : list (pystr * obj), NoDup (map fst st) -> NoDup (rank_leaf_paths st).
+Proof.
+  intros st N. unfold rank_leaf_paths. apply NoDup_flat_map_disjoint.
+  - intros [k o] _. cbn [fst snd]. exact (NoDup_app_r _ _ (flatten_s_paths_nodup o k)).
+  - apply (FOP_of_NoDup_map fst); [exact N|]. intros [k1 o1] [k2 o2] Hk s H1 H2. cbn [fst snd] in *.
+    apply leaf_string_origin in H1. destruct H1 as [q1 [I1 E1]]. apply leaf_string_origin in H2. destruct H2 as [q2 [I2 E2]].
+    assert (Eq : q1 = q2).
+    { rewrite <- (split_join_path o1 k1 q1 I1), <- (split_join_path o2 k2 q2 I2), <- E1, <- E2. reflexivity. }
+    apply all_paths_prefix in I1. destruct I1 as [r1 R1]. apply all_paths_prefix in I2. destruct I2 as [r2 R2].
+    subst q1. rewrite R2 in Eq. cbn [app] in Eq. apply (f_equal (hd [])) in Eq. cbn [hd] in Eq. apply Hk. exact (encode_inj _ _ Eq).
+Qed.
+
+Lemma rank_leaf_paths_relative : forall st, Forall (fun kv : pystr * obj => fst kv <> []) st ->
+  Forall relative_str (rank_leaf_paths st).
+Proof.
+  intros st F. apply Forall_forall. intros s Hs. unfold rank_leaf_paths in Hs. apply in_flat_map in Hs.
+  destruct Hs as [[k o] [Hin Hs]]. cbn [fst snd] in Hs. rewrite Forall_forall in F. specialize (F _ Hin). cbn [fst] in F.
+  apply leaf_string_origin in Hs. destruct Hs as [q [Iq E]]. subst s.
+  destruct (flatten_path_wf o k q Iq) as [[Hq Fq] R]. unfold relative_str. apply starts_slash_join; [exact Hq | exact (R F) |].
+  destruct q as [|c r]; [contradiction Hq; reflexivity|]. inversion Fq as [|? ? [Hc _] _]. exact Hc.
+Qed.
+
+(* ---- all ranks, after consolidate_replicated_entries (model/Partition.v, property C06) ---- *)
+Definition named_keys (name : Z -> pystr) (ms : list Partition.manifest) : list (list pystr) :=
+  map (fun m => map (fun kv : Z * Partition.entry => name (fst kv)) m) ms.
+
+Lemma nth_error_nth_default : forall {A} (l : list A) i x d, nth_error l i = Some x -> nth i l d = x.
+Proof. intros A. induction l as [|a l IH]; intros [|i] x d H; cbn in *; try discriminate; [inversion H; reflexivity | apply IH; exact H]. Qed.
+
+Lemma in_nth_manifest : forall (ms : list Partition.manifest) r pe, In pe (nth r ms []) -> In (nth r ms []) ms.
+Proof.
+  intros ms r pe H. destruct (Nat.lt_ge_cases r (length ms)) as [L|L]; [apply nth_In; exact L|].
+  rewrite (nth_overflow ms [] L) in H. destruct H.
+Qed.
+
+Lemma strip_repl_in : forall m p e, In (p, e) (strip_repl m) <-> In (p, e) m /\ is_repl e = false.
+Proof.
+  intros m p e. unfold strip_repl. rewrite filter_In. cbn [snd]. split; intros [H1 H2]; split; try exact H1.
+  - apply negb_true_iff in H2. exact H2.
+  - apply negb_true_iff. exact H2.
+Qed.
+
+Lemma nth_error_named : forall name (ms : list Partition.manifest) i m,
+  nth_error (named_keys name ms) i = Some m <->
+  exists mi, nth_error ms i = Some mi /\ m = map (fun kv : Z * Partition.entry => name (fst kv)) mi.
+Proof.
+  intros name. unfold named_keys. induction ms as [|a ms IH]; intros [|i] m; cbn [map nth_error].
+  - split; [discriminate | intros (mi & H & _); discriminate H].
+  - split; [discriminate | intros (mi & H & _); discriminate H].
+  - split; [intro H; inversion H; exists a; split; reflexivity | intros (mi & H & E); inversion H; subst; reflexivity].
+  - apply IH.
+Qed.
+
+Lemma in_named_global : forall name ms' r p,
+  (exists e, In (p, e) (nth r ms' [])) -> In (manifest_path (Z.of_nat r) (name p)) (global_paths (named_keys name ms')).
+Proof.
+  intros name ms' r p [e H]. unfold global_paths. apply in_global_from.
+  assert (L : (r < length ms')%nat).
+  { destruct (Nat.lt_ge_cases r (length ms')) as [L|L]; [exact L|]. rewrite (nth_overflow ms' [] L) in H. destruct H. }
+  exists r, (map (fun kv : Z * Partition.entry => name (fst kv)) (nth r ms' [])), (name p). repeat split.
+  - apply nth_error_named. exists (nth r ms' []). split; [apply nth_error_nth'; exact L | reflexivity].
+  - apply in_map_iff. exists (p, e). split; [reflexivity | exact H].
+Qed.
+
+Lemma named_global_in : forall name ms' r p,
+  (forall a b, name a = name b -> a = b) -> (forall a, relative_str (name a)) ->
+  In (manifest_path (Z.of_nat r) (name p)) (global_paths (named_keys name ms')) -> exists e, In (p, e) (nth r ms' []).
+Proof.
+  intros name ms' r p Inj Rel H. unfold global_paths in H. apply in_global_from in H.
+  destruct H as (i & m & s & H1 & H2 & H3). cbn [Nat.add] in H3. apply nth_error_named in H1.
+  destruct H1 as (mi & Ei & Em). subst m.
+  apply in_map_iff in H2. destruct H2 as [[p' e] [E Hin]]. cbn [fst] in E. subst s.
+  apply manifest_path_inj in H3; [|apply Rel|apply Rel]. destruct H3 as [Hr Hp]. apply Nat2Z.inj in Hr. subst i.
+  apply Inj in Hp. subst p'. exists e. rewrite (nth_error_nth_default ms' r mi [] Ei). exact Hin.
+Qed.
+
+Theorem manifest_lists_each_leaf_once : forall (name : Z -> pystr) (ms ms' : list Partition.manifest),
+  (forall a b, name a = name b -> a = b) -> (forall a, relative_str (name a)) ->
+  ms <> [] -> keys_distinct ms -> consistent ms -> consolidate ms = Some ms' ->
+  NoDup (global_paths (named_keys name ms')) /\
+  (forall r p e, In (p, e) (nth r ms []) -> is_repl e = false ->
+     In (manifest_path (Z.of_nat r) (name p)) (global_paths (named_keys name ms'))) /\
+  (forall m p e, In m ms -> In (p, e) m -> is_repl e = true ->
+     In (manifest_path 0 (name p)) (global_paths (named_keys name ms')) /\
+     forall r, (1 <= r)%nat -> ~ In (manifest_path (Z.of_nat r) (name p)) (global_paths (named_keys name ms'))).
+Proof.
+  intros name ms ms' Inj Rel Hne KD CO HC.
+  destruct (consolidate_complete ms ms' Hne KD CO HC) as (HL & HS & HR & H0 & HG & HO).
+  assert (KDn : forall r, NoDup (map fst (nth r ms []))).
+  { intro r. destruct (Nat.lt_ge_cases r (length ms)) as [L|L].
+    - unfold keys_distinct in KD. rewrite Forall_forall in KD. apply KD. apply nth_In. exact L.
+    - rewrite (nth_overflow ms [] L). constructor. }
+  split; [|split].
+  - unfold global_paths. apply global_from_nodup. unfold named_keys. apply Forall_forall. intros l Hl.
+    apply in_map_iff in Hl. destruct Hl as [m [E Hm]]. subst l. split.
+    + rewrite <- (map_map fst name). apply NoDup_map_inj_on; [intros a b _ _; apply Inj|].
+      destruct (In_nth ms' m [] Hm) as [r [Lr Er]]. subst m. destruct r as [|r]; [exact H0|].
+      rewrite (HR (S r)) by lia. unfold strip_repl. apply NoDup_map_filter. apply KDn.
+    + apply Forall_forall. intros s Hs. apply in_map_iff in Hs. destruct Hs as [kv [E _]]. subst s. apply Rel.
+  - intros r p e Hin He. apply in_named_global. exists e.
+    assert (Hs : In (p, e) (strip_repl (nth r ms' []))) by (rewrite HS; apply strip_repl_in; split; assumption).
+    apply strip_repl_in in Hs. exact (proj1 Hs).
+  - intros m p e Hm Hin He. split.
+    + change 0 with (Z.of_nat 0). apply in_named_global.
+      destruct (in_dec Z.eq_dec p (group_paths ms)) as [G|G].
+      * destruct (HG p G) as [(meta & cs & Hl & _) _]. exists (EChunked true meta cs). exact (lookup_In _ _ _ Hl).
+      * exists e. exact (lookup_In _ _ _ (HO m p e Hm Hin He G)).
+    + intros r Hr Hg. apply (named_global_in name ms' r p Inj Rel) in Hg. destruct Hg as [e' He'].
+      rewrite (HR r Hr) in He'. apply strip_repl_in in He'. destruct He' as [Hin' Hrep'].
+      pose proof (in_nth_manifest ms r _ Hin') as Hm'. rewrite (CO m (nth r ms []) p e e' Hm Hm' Hin Hin') in He. congruence.
+Qed.
